@@ -21,8 +21,8 @@ MIN_EVENTS = {"round trips judged": 40, "write faults injected": 150,
               "saves of a different fit": 15,
               "same curve saved again": 15}
 TIMEOUT = {"quick": 1200, "thorough": 3500}
-N_SEQ = {"quick": 2, "thorough": 30}     # save sequences per shard
-N_FAULT_SAVES = {"quick": 1, "thorough": 8}   # fault-enumerated saves/shard
+N_SEQ = {"quick": 2, "thorough": 60}     # save sequences per shard
+N_FAULT_SAVES = {"quick": 1, "thorough": 20}   # fault-enumerated saves/shard
 RULE = ("case = save sequence over fitted curves from synthetic files (2-3 "
         "enumerations per file) and recorded curves: new curve / same curve "
         "again with other user fields / same curve with a different fit "
